@@ -37,6 +37,8 @@ fn profile(ctx: &Ctx) -> Profile {
     p.max_cols = 4;
     p.str_style = if ctx.chance(1, 3, "c05.text") { gen::types_api::StrStyle::Text } else { gen::types_api::StrStyle::Plain };
     p.small_dict_keys = false;
+    // null density varies per run: all valid, sparse, half, mostly null (fast paths key on it)
+    p.null_rate = *ctx.pick(&[3u64, 0, 8, 12, 15], "c05.null_rate");
     p
 }
 
@@ -58,7 +60,8 @@ struct Table {
 
 fn gen_table(ctx: &Ctx, p: &Profile) -> Table {
     let schema = gen::gen_schema(ctx, p);
-    let n = ctx.size(160, "c05.rows");
+    // mostly small tables; some long enough for ranges of several hundred slots inside one write()
+    let n = if ctx.chance(1, 6, "c05.long") { 100 + ctx.below(500, "c05.rows_long") } else { ctx.size(160, "c05.rows") };
     let (lb, batch) = gen::gen_batch(ctx, &schema, n, p);
     ctx.note("schema", serde_json::json!(gen::schema_sig(&schema, false)));
     ctx.note("rows", serde_json::json!(n));
